@@ -241,6 +241,7 @@ fn main() {
                 script.solve_cfg.core = match alt {
                     1 => CoreChoice::Full,
                     2 => CoreChoice::Padded,
+                    3 => CoreChoice::MinimalRev,
                     _ => CoreChoice::Minimal,
                 };
             }
@@ -259,7 +260,7 @@ fn main() {
             }
             if name == "get-unsat-assumptions" && r.is_ok() {
                 let alt = ctl.peek("core");
-                ctl.consume("core", 3, alt);
+                ctl.consume("core", 4, alt);
             }
             if bearing {
                 let n = ctl.next_resp;
